@@ -854,13 +854,19 @@ def check_witness_guards(ctx, rule):
                     if any(s(pt) == s(x) for x in stored):
                         why = 'dominated by %s.contains(stored point) == true' % fmt(l[1][2][0])
                         site += ':contains:' + ('repaired' if any(is_call(x, 'AffTree::mirror_points') for x in walk(pt)) else 'lp')
-        # (c) Some payload of mirror_points(P, ..)
+        # (c) Some payload of mirror_points(P, ..): the stored points are exactly the columns of the returned array (each column passed the
+        # distance filter as a whole; any other cut of the array - rows, chunks of the flattened data - mixes coordinates of different points)
         if why is None:
             mp = find(payload, lambda x: is_call(x, 'AffTree::mirror_points'))
             somelit = [l for l in lits if l[0] == 'is' and l[2] == frozenset(['Some']) and is_call(l[1], 'AffTree::mirror_points')]
             if mp and somelit:
-                why = 'columns returned by mirror_points(%s, ..) (contract checked separately)' % fmt(mp[0][2][0])
-                site += ':mirror'
+                M = columns_of(F, b, R, payload)
+                if M is not None and M[0] == 'field' and M[2] == '0' and is_call(M[1], 'AffTree::mirror_points'):
+                    why = 'columns returned by mirror_points(%s, ..) (contract checked separately)' % fmt(mp[0][2][0])
+                    site += ':mirror'
+                else:
+                    ctx.bad(rule, site + ':mirror', 'the cached points are not the columns of the array returned by mirror_points (each column is one tested point): %s' % fmt(s(payload))[:200], span)
+                    continue
         if why:
             ctx.ok(rule, site, 'witness stored only after a containment test: ' + why, span)
         else:
@@ -1073,3 +1079,58 @@ def check_layout_independence(ctx, rule):
             ctx.lost(rule, 'ndarray call sites (only %d found)' % n)
         else:
             ctx.ok(rule, site, 'none of the %d ndarray call sites of the crate reads contents in memory order, through raw pointers or strides' % n, None)
+
+
+def columns_of(F, b, R, e):
+    """If `e` is the list of the columns of one 2-D array M, each copied as it is
+         M.axis_iter(Axis(1)) | M.columns()  [.into_iter()] .map(|c| c.to_owned()) .collect()      or pushed one by one in a loop over them,
+       return the expression of M, else None."""
+    from ..mir import strip_sites as s_
+    x = e
+    while is_call(x, 'Itertools::collect_vec', 'Iterator::collect', 'collect', 'IntoIterator::into_iter', 'into_iter', 'Vec::from_iter', 'FromIterator::from_iter') and x[2]:
+        x = x[2][0]
+
+    def cols(src):
+        while is_call(src, 'IntoIterator::into_iter', 'into_iter') and src[2]:
+            src = src[2][0]
+        if is_call(src, 'ArrayBase::axis_iter') and s_(src[2][1])[2] == (('const', 1),):
+            return src[2][0]
+        if is_call(src, 'ArrayBase::columns', 'ArrayBase::gencolumns'):
+            return src[2][0]
+        return None
+
+    def owned_copy(v, item):
+        v = s_(v)
+        while is_call(v, 'ArrayBase::to_owned', 'ToOwned::to_owned', 'Clone::clone', 'ArrayBase::into_owned') and v[2]:
+            v = v[2][0]
+        return v == s_(item)
+
+    if is_call(x, 'Iterator::map', 'map') and len(x[2]) == 2 and x[2][1][0] == 'closure':
+        cb, crets = closure_ret(F, x[2][1])
+        if cb is None or not crets or len(crets) != 1:
+            return None
+        if not owned_copy(crets[0], ('param', cb.arg_names()[-1])):
+            return None
+        return cols(x[2][0])
+    if is_call(x, 'Vec::new', 'Vec::with_capacity'):
+        els = vec_elements(F, b, R, x) or []
+        Ms = set()
+        for el in els:
+            v = s_(el)
+            while is_call(v, 'ArrayBase::to_owned', 'ToOwned::to_owned', 'Clone::clone', 'ArrayBase::into_owned') and v[2]:
+                v = v[2][0]
+            if not is_call(v, 'Iterator::next'):
+                return None
+            m = cols(v[2][0])
+            if m is None:
+                return None
+            Ms.add(m)
+        if len(Ms) == 1 and els:
+            # cols() saw the site-stripped form: hand back the original (un-stripped) matrix expression
+            m = Ms.pop()
+            for el in els:
+                for y in walk(el):
+                    if s_(y) == m:
+                        return y
+        return None
+    return None
